@@ -252,6 +252,12 @@ def run_data(desc, ctx):
                             {"ds": ds, "metric": name, "agg": agg, "axis": axis})
             # csv
             argv = paths + ["-m", name, "-x", axis, "-type", "csv"] + (["-agg", agg] if agg else [])
+            if not verif.metric.get(name).supports_threshold and rng.random() < 0.3:
+                # thresholds are "only used by some metrics": for the others the score must not change with -r / -b
+                bt = rng.choice(list(attach.BIN_TABLE))
+                nthr = rng.randint(2 if "within" in bt else 1, 4)       # a 'within' bin needs two thresholds to form an event
+                argv += ["-r", ",".join(gen.fnum(t) for t in sorted(rng.sample([0.0, 1.0, 2.5, 5.0, 7.5, 10.0], nthr))), "-b", bt]
+                ctx.count("csv_with_irrelevant_thresholds")
             o_ = runner.run_cli(argv)
             if o_.status != "ok":
                 ctx.violation("csv-failed|%s" % name, str(o_.brief()), {"ds": ds, "argv": argv[F:]})
